@@ -16,19 +16,19 @@ TECH = {
     "C01": "RF-IVL interval abstract interpretation (loop unrolling, value partitioning, widening thresholds, OR-accumulated error words) of every fixed-array subscript and pointer-cursor dereference + RF-INV declared field invariants verified inductively at every writer (stores, memset/memcpy, escaping addresses, constant tables) + RF-ASSERT assertion reachability per call site + RF-SHIFT shift-amount/divisor intervals + RF-UAF freed-pointer dataflow + RF-INIT heap list-node completeness + RF-REC recursion inventory with guard dominance + RF-PAIR page/network reference typestate",
     "C03": "RF-NEG flow-sensitive decode-error taint (state stores, shifts, unexamined results; OR-accumulation aware) over every function of packet.c/teletext.c + RF-NOWRITE on the link helpers + RF-DOM header/parity-gate/X-26 error-edge dominance + RF-TAB parity-exempt mode table",
     "C05": "RF-DOM capacity-test dominance on the output cursor and slicer calls + RF-INIT per-installed-slicer field completeness and failure disarm + RF-DEP dependence closure of the CRI search limit",
-    "C06": "RF-TAB data-unit tables extracted from mux and demux code and compared (id, service, payload bytes, bit order, lengths) + RF-DOM sliced-line frame boundary (edge-filtered reachability) + RF-CORR failure clears the coroutine window + RF-DOM callback after success",
-    "C07": "RF-PURE no static-state writes + RF-UNDERFLOW guarded unsigned byte accounting (dominating atom on the same operands, unassigned since) + RF-IVL lookahead capacity intervals + RF-DOM cursor/length guards + RF-CORR continuity resynchronisation (edge-filtered reachability)",
-    "C09": "RF-IVL interval abstract interpretation of XDS buffer/table subscripts and assertion reachability with field invariants + RF-CORR current-packet invariant (typestate, must-pass-through) + RF-DOM checksum/parity/routing dominance, both implementations",
-    "C10": "RF-PAIR ownership typestate for page and network references (NULL-branch correlation, out-parameter and move-on-success summaries) + RF-DOM free/recycle/evict/reuse eligibility dominance + RF-IVL victim array capacity",
-    "C11": "RF-CORR path-sensitive typestate (cursor patched or known elsewhere before every free) + RF-TYPESTATE no use of the record after the callback + RF-WHO/RF-CORR single mask writer on every path + RF-DOM Teletext gate + RF-LOCK event_mutex pairing with trylock correlation",
-    "C12": "RF-NOWRITE failure leaves outputs untouched (path-sensitive typestate) + RF-NEG decode-error taint + RF-BITS bit-provenance abstract evaluation of the VPS/DVB-PDC encoders against their decoders",
-    "C13": "RF-DOM debounce-condition dominance (structural branch atoms) on every announcement/reset site + RF-CORR must-pass-through re-arm/clear of the debounce state",
+    "C06": "RF-TAB data-unit tables extracted from mux and demux code and compared (id, service, payload bytes, bit order, lengths) + RF-DOM sliced-line frame boundary (edge-filtered reachability) + RF-CORR failure clears the coroutine window + RF-DOM callback after success + RF-NOWRITE refused setter leaves the multiplexer untouched + RF-WHO writers of the line-order state",
+    "C07": "RF-PURE no static-state writes + RF-UNDERFLOW guarded unsigned byte accounting (dominating atom on the same operands, unassigned since) + RF-IVL lookahead capacity intervals + RF-DOM cursor/length guards + RF-CORR continuity resynchronisation (edge-filtered reachability) + RF-CORR sibling cross-check of the frame discard on the callee's return range + RF-DOM PID filter behind the transport_error_indicator test",
+    "C09": "RF-IVL interval abstract interpretation of XDS buffer/table subscripts and assertion reachability with field invariants + RF-CORR current-packet invariant (typestate, must-pass-through) + RF-DOM checksum/parity/routing dominance, both implementations + RF-TAB rating-system table by value partitioning of the interval analysis over the first rating byte",
+    "C10": "RF-PAIR ownership typestate for page and network references (NULL-branch correlation, out-parameter and move-on-success summaries) + RF-DOM free/recycle/evict/reuse eligibility dominance + RF-IVL victim array capacity + RF-WHO the subpage range decides control flow only where it is maintained and in the walk",
+    "C11": "RF-CORR path-sensitive typestate (cursor patched or known elsewhere before every free) + RF-TYPESTATE no use of the record after the callback + RF-WHO/RF-CORR single mask writer on every path + RF-DOM Teletext gate + RF-LOCK event_mutex pairing with trylock correlation + RF-CORR event mask installed only after a complete list walk",
+    "C12": "RF-NOWRITE failure leaves outputs untouched (path-sensitive typestate) + RF-NEG decode-error taint + RF-BITS bit-provenance abstract evaluation of the VPS/DVB-PDC encoders against their decoders + RF-PURE stateless codecs + RF-NEG protected packet read only through the Hamming decoders",
+    "C13": "RF-DOM debounce-condition dominance (structural branch atoms) on every announcement/reset site + RF-CORR must-pass-through re-arm/clear of the debounce state + RF-CORR edge cut: the network record is wiped on every unidentified path; debounce clause also in decomposed form (counter discipline, reachability under a known counter value)",
     "C14": "RF-PAIR path-sensitive typestate (TZ change/restore) + RF-WHO who-may-call + RF-DEP save-before-set",
     "C15": "RF-DEP flags provenance + RF-INIT constructor completeness + RF-DOM CRC/Hamming dominance + RF-NEG decode-error taint (stores, shifts, unexamined results) + RF-IVL intervals with loop trip-count caps + RF-CORR tracker update + RF-PURE",
     "C16": "RF-WHO single write layer (who-may-call over the call graph of the export modules) + RF-DOM grow-before-store, grow contract, strict vsnprintf acceptance, room-before-store in the text output, unsupported pixel format reaches no drawing call",
-    "C17": "RF-TAB return-code/metacharacter table agreement + RF-IVL capacity",
+    "C17": "RF-TAB return-code/metacharacter table agreement + RF-IVL capacity + RF-DOM the page walk starts inside its start page + RF-WHO the walk steps every subpage + RF-INIT both resume positions stored on every path of highlight()",
     "C18": "RF-LOCK context-sensitive lockset over main loop and acquisition thread (queue_mutex, clnt_mutex), lock pairing and order + RF-DOM service filter / free-at-zero / subscriber dominance + RF-CORR mask rebuild + RF-PAIR drain-on-close",
-    "C19": "RF-TAB message-type exhaustiveness and validated-length vs. read-member agreement + RF-TAINT/RF-IVL client fields to index/length/assert sinks (interval analysis, pointer-arithmetic subscripts) + RF-STATE token transitions with a path-sensitive grant-site typestate + RF-DOM error-closes and drain-before-update",
+    "C19": "RF-TAB message-type exhaustiveness and validated-length vs. read-member agreement + RF-TAINT/RF-IVL client fields to index/length/assert sinks (interval analysis, pointer-arithmetic subscripts) + RF-STATE token transitions with a path-sensitive grant-site typestate + RF-DOM error-closes and drain-before-update + RF-DOM the forced release of the head frame depends only on the client's cursor",
     "C20": "RF-LOCK context-sensitive must-lockset (path-sensitive typestate, caller lockset as context) over the documented cross-thread entry points + lock pairing on all paths + callbacks-without-locks + lock-order acyclicity",
 }
 
